@@ -30,6 +30,10 @@ pub enum Input {
 	/// a LONG stream of `n` valid datums (`val::gen_long_vals`) decoded one after the other through ONE deserializer
 	/// state, under limits that every single datum just fits (generated at execution time)
 	Stream { seed: u64, n: u32, pattern: u8 },
+	/// a nesting stream much deeper than the limit, decoded AGAIN AND AGAIN on the same deserializer state after every
+	/// refusal (up to `attempts` times; the bytes are all alike, so every position is a level boundary): no attempt
+	/// may ever return a value nested deeper than the limit allows — a limit is a limit also after it has been hit
+	DeepRetry { kind: DeepKind, depth: u32, attempts: u32 },
 }
 
 #[derive(Clone, Debug, Serialize, Deserialize, PartialEq)]
@@ -340,6 +344,21 @@ impl Prop for C04 {
 				path,
 			};
 		}
+		// a nesting stream far deeper than the limit, retried on one state after every refusal
+		if run % 256 == 21 {
+			let kind = *rng.pick(&[DeepKind::RecordUnion, DeepKind::RecordArray, DeepKind::RecordMap]);
+			let allowed_depth = *rng.pick(&[2usize, 3, 8, 16, 64]);
+			return Scn {
+				schema: deep_schema(kind),
+				input: Input::DeepRetry { kind, depth: (allowed_depth as u32) * (4 + rng.below(30) as u32) + rng.below(7) as u32, attempts: 20 + rng.below(200) as u32 },
+				gen_kind: "deep-retry".into(),
+				valid_of: None,
+				positive_counts_only: false,
+				limits: Limits { allowed_depth, max_seq_size: 100_000, max_alloc_size: 1 << 20 },
+				target: Target::capture(),
+				path: if matches!(path, Path::Reader(ReaderKind::BufReader { .. })) { Path::Slice } else { path },
+			};
+		}
 		// nesting streams
 		if run % 16 == 5 {
 			let kind = *rng.pick(&[DeepKind::RecordUnion, DeepKind::RecordArray, DeepKind::RecordMap]);
@@ -459,9 +478,42 @@ impl Prop for C04 {
 			self.exec_stream(scn, &env, &schema, *seed, *n, *pattern, &mut out);
 			return out;
 		}
+		if let Input::DeepRetry { kind, depth, attempts } = &scn.input {
+			out.count("nesting_stream_retried_on_one_state", 1);
+			let bytes = deep_bytes(*kind, *depth, true);
+			let lim = scn.limits;
+			let r = match &scn.path {
+				Path::Slice => world::decode_stream_slice_ext(&schema, &env, &scn.schema, &bytes, *attempts as usize, Target::capture(), lim, false),
+				Path::Reader(k) => world::decode_stream_reader_ext(&schema, &env, &scn.schema, &bytes, *attempts as usize, Target::capture(), lim, k, false).0,
+			};
+			out.evals = 1;
+			let mut sig = Fnv::new();
+			sig.str("c04-deep-retry").u64(*kind as u64).u64(lim.allowed_depth as u64).u64(matches!(scn.path, Path::Slice) as u64);
+			out.sig(sig);
+			let mut d = Fnv::new();
+			d.u64(r.items.len() as u64).u64(r.items.iter().filter(|x| x.is_ok()).count() as u64);
+			out.digest = d.get();
+			if let Some(p) = &r.panicked {
+				out.fail(format!("panic:{}", crate::runner::panic_site(p)), format!("nesting stream retried on one state, after {} attempts: {p}", r.items.len()));
+				return out;
+			}
+			for (i, it) in r.items.iter().enumerate() {
+				if let Ok(v) = it {
+					if val_nesting(v) > lim.allowed_depth {
+						out.fail(
+							"C04:depth-limit-not-enforced:after-earlier-refusals",
+							format!("attempt #{i} on the same deserializer state returned a value whose records / arrays / maps nest {} deep; allowed_depth is {} ({} refusals before it)", val_nesting(v), lim.allowed_depth, r.items[..i].iter().filter(|x| x.is_err()).count()),
+						);
+						return out;
+					}
+				}
+			}
+			out.count("decode_err", 1);
+			return out;
+		}
 		let owned;
 		let bytes: &[u8] = match &scn.input {
-			Input::Stream { .. } => unreachable!(),
+			Input::Stream { .. } | Input::DeepRetry { .. } => unreachable!(),
 			Input::Bytes(b) => b,
 			Input::Deep { kind, depth, terminated } => {
 				owned = deep_bytes(*kind, *depth, *terminated);
